@@ -124,6 +124,13 @@ def gen_cases(tier, seed):
            "targets": ["j"]}
     yield {"objs": [["T", ["i", "j", "b", "c"], 1], ["Z", ["i", "c"], 1]], "tkind": "anti", "pref": [1, 1],
            "targets": ["j", "b"]}
+    # four indices of one space (diagonal blocks, with and without bra-ket
+    # symmetry; a tensor with all indices in one group)
+    for bk in (0, 1):
+        yield {"objs": [["T", ["i", "j", "k", "l"], 1], ["Z", ["i", "j", "k", "l"], 1]], "tkind": "anti",
+               "pref": [1, 1], "bk": bk, "big": True}
+    yield {"objs": [["T", ["i", "j", "k", "l"], 1], ["Z", ["i", "j"], 1], ["Z", ["k", "l"], 1]], "tkind": "anti",
+           "pref": [1, 2], "bk": 1, "big": True}
     for _ in range(60 if tier == "quick" else 250):
         names = rng.sample(OCC, 3) + rng.sample(VIRT, 3)
         tkind = rng.choice(["anti", "anti", "non"])
@@ -151,7 +158,7 @@ def gen_cases(tier, seed):
             take = min(len(odd), rng.choice([1, 2, 3]))
             objs.append(["Z", [odd.pop() for _ in range(take)], 1])
         yield {"objs": objs, "tkind": tkind, "pref": [rng.choice([1, -1, 3]), rng.choice([1, 2, 4])],
-               "bk": 0}
+               "bk": rng.choice([0, 0, 1])}
 
 
 def minimal_indices(space, spin, targets=()):
@@ -216,13 +223,38 @@ def remove_check(case):
     occ = [o for o in case["objs"] if o[0] == "T"]
     if len(occ) != 1 or occ[0][2] != 1:
         return True, "several occurrences: covered by the derivative check only"
-    model = Model(ORBS, seed=41, braket={"V": 1})
+    braket = {"V": 1}
+    if case["tkind"] == "anti" and case.get("bk"):
+        braket["T"] = case["bk"]
+    model = Model(ORBS if not case.get("big") else orbital_space(2, 1), seed=41, braket=braket)
     res = remove_tensor(e, "T")
     for asg in TM.all_assignments(tg, ORBS):
         ok, d = _recontract(case, e, res, tg, asg, model, occ)
         if not ok:
             return False, d
     return True, ""
+
+
+def block_group(t):
+    """all re-orderings of the indices of the tensor block (positions permuted
+    within the tensor) that give +-1 times the same tensor: found by brute
+    force with the constructors (C06), not with Term.symmetry.  Returns
+    [(permutation of positions, sign)] including the identity."""
+    if isinstance(t, NonSymmetricTensor):
+        return [(tuple(range(len(t.indices))), 1)]
+    up, lo = tuple(t.upper), tuple(t.lower)
+    idx = up + lo
+    out = []
+    for perm in itertools.permutations(range(len(idx))):
+        new = tuple(idx[k] for k in perm)
+        if any(a.space != b.space or a.spin != b.spin for a, b in zip(new, idx)):
+            continue
+        other = type(t)(t.name, new[:len(up)], new[len(up):], t.bra_ket_sym)
+        if other == t:
+            out.append((perm, 1))
+        elif other == -t:
+            out.append((perm, -1))
+    return out
 
 
 def _recontract(case, e, res, tg, asg, model, occ):
@@ -236,14 +268,33 @@ def _recontract(case, e, res, tg, asg, model, occ):
         tidx = minimal_indices(block, "", tg)
         if case["tkind"] == "anti":
             nu = len(occ[0][1]) // 2
-            t = AntiSymmetricTensor("T", tuple(tidx[:nu]), tuple(tidx[nu:]))
-            nsym = len(Expr(t).terms[0].symmetry())
+            t = AntiSymmetricTensor("T", tuple(tidx[:nu]), tuple(tidx[nu:]), case.get("bk", 0))
+            group = block_group(t)
         else:
             t = NonSymmetricTensor("T", tuple(tidx))
-            nsym = 0
+            group = block_group(t)
         pe = part if isinstance(part, Expr) else Expr(part)
-        # sum over canonical index tuples = unrestricted sum / (n_sym + 1)
-        total += evaluate((pe.sympy * t).expand(), asg, model) / (nsym + 1)
+        # sum over canonical index tuples = unrestricted sum / |G|; bra-ket
+        # partners of a non diagonal block are folded into one block
+        # (documented normalisation for bra-ket symmetric tensors: a diagonal
+        # block is restricted within bra and within ket only, the partner of
+        # a non diagonal block is folded in: both give a factor 2)
+        fold = 2 if case["tkind"] == "anti" and case.get("bk") else 1
+        total += fold * evaluate((pe.sympy * t).expand(), asg, model) / len(group)
+        # the block expression carries the symmetry of the removed block
+        free = list(tidx)
+        rng_ = random.Random(7)
+        for perm, sign in group[:8]:
+            for basg in TM.all_assignments(free, ORBS, limit=6, rng=rng_):
+                full = dict(asg)
+                full.update(basg)
+                pasg = dict(asg)
+                pasg.update({free[k]: basg[free[perm[k]]] for k in range(len(free))})
+                v0 = evaluate(pe.sympy, full, model)
+                v1 = evaluate(pe.sympy, pasg, model)
+                if v1 != sign * v0:
+                    return False, (f"remove_tensor({e}, 'T'): block {block} = {pe} does not carry the symmetry "
+                                   f"{perm} -> {sign} of the removed tensor block ({v1} vs {sign}*{v0})")
     if total != ref:
         return False, (f"remove_tensor({e}, 'T') = { {k: str(v) for k, v in res.items()} }: "
                        f"re-contraction over canonical index tuples gives {total}, expression {ref}")
